@@ -118,6 +118,18 @@ def _md_obj(lab, ident):
     return d
 
 
+def _rate(f):
+    """the rate as a rational.  The code divides the rate by the step in floating point (fs / step); the model and
+    the oracle divide rationals.  A float that is the rounded value (within 4 ulp: repeated strided slices round
+    more than once) of a rational with a small denominator stands for that rational; any other float for itself."""
+    x = float(f)
+    fr = Fraction(x)
+    small = fr.limit_denominator(10 ** 7)
+    if small != fr and abs(float(small) - x) <= 9e-16 * abs(x):
+        return small
+    return fr
+
+
 def _md_id(lab, obj):
     if type(obj) is dict and not obj:
         return -2
@@ -255,7 +267,7 @@ def _obs(r, lab=0):
         md = ['L', ids]
     else:
         raise TypeError(f'metadata of unexpected form {md!r}')
-    fs = Fraction(float(r.fs))
+    fs = _rate(r.fs)
     n = r.shape[-1]
     t = r.t
     s0 = int(r.s0)
